@@ -518,16 +518,21 @@ def classify(mode, s, t, expected, observed):
       <door>-bindings-not-propagated        goal with a repeated variable; unifiable; symptom: exactly one answer that is strictly
                                             more general than the mgu instance (eq/head: goal asked at top level through
                                             engine.query; body: `w(Vars) :- S = T`, sharing between returned bindings is lost)
+      indirect-occurs-check-unbounded-recursion   same input feature; symptom: RecursionError (not a ProbLogError) or no answer in 60 s
       head-quoted-atom-not-matched          a quoted atom occurs; unifiable; symptom: the call against the clause head fails
       quoted-numeric-atom-equals-number     a quoted atom spelled like a number occurs and the pair would unify if that atom
                                             were the number; symptom: = / head call succeeds, \\= fails"""
-    if observed[0] == 'err':
-        return None
-    obs = observed[1]
     door = {'eq': 'eq', 'body': 'eq', 'neq': 'neq', 'call': 'head', 'callN': 'head'}[mode]
     if mode == 'callN':     # only the argument lists are matched; the two functors play no role
         s, t = C('ans', *s[2]), C('ans', *t[2])
     t_cls = rename_apart(t) if door == 'head' else t
+    if observed[0] == 'err':
+        unif = (expected is False) if mode == 'neq' else (expected is not None)
+        if observed[1] in ('INTERNAL:RecursionError', 'Timeout') and not unif and rational_unifiable(s, t_cls):
+            # e.g. Y = f(X), X = f(Y): unify_value follows the cyclic bindings for ever
+            return "indirect-occurs-check-unbounded-recursion"
+        return None
+    obs = observed[1]
     if mode == 'neq':
         exp_ok, succeeded = (not expected), (not obs)     # in terms of the underlying unification
     else:
